@@ -228,6 +228,16 @@ def tick (cfg : Cfg) (s : St) : Res :=
   | some d => if d ≤ s1.now then timerExpired cfg s1 else (s1, none)
   | none => (s1, none)
 
+/-- a reactor stall: the clock jumps `n` ticks in one step (`Clock.advance(n)` / a reactor that was
+    busy or suspended), and only then is the pending call run — late, at `now ≥ deadline`, with
+    `reactor.seconds()` already showing the late time.  The call it schedules (`now + T`) is in
+    the future, so at most one runs.  `stall 1 = tick`. -/
+def stall (cfg : Cfg) (n : Nat) (s : St) : Res :=
+  let s1 := { s with now := s.now + n }
+  match s1.timer with
+  | some d => if d ≤ s1.now then timerExpired cfg s1 else (s1, none)
+  | none => (s1, none)
+
 /-! ## operations and traces -/
 
 inductive Op where
@@ -242,6 +252,7 @@ inductive Op where
   | pong (id : Nat)          -- `got_record(Pong(id))`
   | pause                    -- the connection's transport: `outbound.pauseProducing()`
   | resume                   -- the connection's transport: `outbound.resumeProducing()`
+  | stall (n : Nat)          -- the clock jumps `n` ticks at once; a timer that fell due runs late
   deriving DecidableEq, Repr
 
 def step (cfg : Cfg) (s : St) : Op → Res
@@ -256,6 +267,7 @@ def step (cfg : Cfg) (s : St) : Op → Res
   | .pong id => gotPong cfg id s
   | .pause => ({ s with outPaused := true }, none)
   | .resume => ({ s with outPaused := false }, none)
+  | .stall n => stall cfg n s
 
 /-- run a trace; stops at the first exception -/
 def run (cfg : Cfg) : St → List Op → Res
@@ -281,21 +293,29 @@ inductive Reach (cfg : Cfg) : St → Prop where
   | init : Reach cfg init
   | step {s s' : St} {o : Op} : Reach cfg s → step cfg s o = (s', none) → Reach cfg s'
 
-/-- "every ping is answered before the next timer expiry", checked at the instant before a
-    tick: if that tick fires the timer, no `Ping` that reached the connection now in use is
-    still unanswered a full interval after it was sent -/
-def respOK (cfg : Cfg) (s : St) : Bool :=
+/-- does the operation move the clock (and so possibly run the timer)?  by how many ticks -/
+def Op.clock : Op → Option Nat
+  | .tick => some 1
+  | .stall n => some n
+  | _ => none
+
+/-- "every ping is answered within one interval of actually being sent", checked at the instant
+    before the clock moves by `n` ticks: if that step runs the timer (on time or late), no `Ping`
+    that reached the connection now in use is still unanswered a full interval after the time it
+    was really handed to the connection -/
+def respOK (cfg : Cfg) (s : St) (n : Nat) : Bool :=
   match s.timer with
   | some d =>
-    if d ≤ s.now + 1 then
-      s.pings.all (fun p => p.wire != s.conn || decide (s.now + 1 < p.sent + cfg.T))
+    if d ≤ s.now + n then
+      s.pings.all (fun p => p.wire != s.conn || decide (s.now + n < p.sent + cfg.T))
     else true
   | none => true
 
-/-- the peer is responsive along a whole trace -/
+/-- the peer is responsive along a whole trace (ticks and stalls alike) -/
 def Responsive (cfg : Cfg) : St → List Op → Bool
   | _, [] => true
-  | s, o :: os => (o != .tick || respOK cfg s) && Responsive cfg (step cfg s o).1 os
+  | s, o :: os =>
+    (match o.clock with | some n => respOK cfg s n | none => true) && Responsive cfg (step cfg s o).1 os
 
 /-- the operations the environment may legitimately perform in a state: the Connector offers a
     connection only while the Manager is CONNECTING, reports the loss of (and delivers records
@@ -313,6 +333,7 @@ def legal (s : St) : Op → Bool
   | .pong _ => s.conn.isSome
   | .pause => s.conn.isSome
   | .resume => s.conn.isSome
+  | .stall _ => true
 
 /-! ## call skeletons the bodies above mirror (checked against `Gen.Skel` in `Props.C16`) -/
 
@@ -344,7 +365,7 @@ def skeletonOK : Bool :=
 
 ```
 cfg <T>            -> ok            (ping interval in ticks, T ≥ 1)
-start | please 0/1 | made | lost | stop | reconnecting | reconnect | pong <k> | pause | resume | adv <n>
+start | please 0/1 | made | lost | stop | reconnecting | reconnect | pong <k> | pause | resume | stall <n> | adv <n>
                    -> [<Exception> ]<state summary>
 ```
 -/
@@ -393,6 +414,10 @@ def drvStep (d : DrvSt) (line : String) : DrvSt × String :=
   | ["pong", k] =>
     match k.toNat? with
     | some id => doOp (.pong id)
+    | none => (d, "bad-op")
+  | ["stall", n] =>
+    match n.toNat? with
+    | some k => doOp (.stall k)
     | none => (d, "bad-op")
   | ["pause"] => doOp .pause
   | ["resume"] => doOp .resume
